@@ -2,12 +2,1041 @@
 
 package c19
 
-import "verif/engine"
+// A2: snapshot sessions. Every session is run in its own fresh processes:
+//   stage1: evaluate the session's forms, (snapshot file) S1, probes
+//   stage2: fresh process, (load S1) as a user would, (snapshot file) S2, probes
+//   stage3: only when stage2's load aborted (S9, degraded mode): fresh process,
+//           S1 evaluated top level form by top level form, failures recorded
+//           and skipped, then S2 and the probes.
+
+import (
+	"encoding/json"
+	"fmt"
+	"os"
+	"os/exec"
+	"path/filepath"
+	"sort"
+	"strings"
+
+	"github.com/ohler55/slip"
+
+	"verif/engine"
+	"verif/lisp"
+)
+
+type item struct {
+	id     string
+	src    []string // top level forms
+	probes []string
+}
+
+var items = []*item{
+	{"defvar", []string{`(defvar *va* 42 "Doc of va.")`},
+		[]string{`*va*`, `(documentation '*va* 'variable)`}},
+	{"defparameter", []string{`(defparameter *pb* '(1 "two" (3 . 4) 2.5 (nested (list "x"))))`},
+		[]string{`*pb*`}},
+	{"defconstant", []string{`(defconstant +kc+ 7 "Doc of kc.")`},
+		[]string{`+kc+`, `(setq +kc+ 8)`}},
+	{"symbol-vars", []string{`(defvar *vs* 'sym)`, `(defvar *vk* :key)`},
+		[]string{`*vs*`, `*vk*`}},
+	{"defun", []string{`(defun f1 (x) "Doc of f1." (* x 2))`},
+		[]string{`(f1 3)`, `(documentation 'f1 'function)`}},
+	// f2 calls f9: defined before f2 in the session, sorted after it in the snapshot
+	{"defun-calls", []string{`(defun f9 (x) (* x 2))`, `(defun f2 (x &optional (y 3)) (+ (f9 x) y))`},
+		[]string{`(f2 1)`, `(f2 1 2)`, `(f9 4)`}},
+	{"defmacro", []string{`(defmacro m1 (a b) (list '+ a (list '* 2 b)))`},
+		[]string{`(m1 1 2)`, `(m1 (no-such-function-zz) 2)`, `(let ((q 4)) (m1 q q))`}},
+	{"defflavor", []string{
+		`(defflavor fl1 ((a 1) (b "x")) () :gettable-instance-variables :settable-instance-variables :inittable-instance-variables (:documentation "Doc of fl1."))`,
+		`(defmethod (fl1 :sum) (n) (+ a n))`,
+		`(defmethod (fl1 :before :sum) (n) (setq b (list 'before n)))`},
+		[]string{`(send (make-instance 'fl1) :a)`, `(send (make-instance 'fl1 :a 10) :a)`,
+			`(let ((i (make-instance 'fl1))) (send i :set-b "q") (send i :b))`,
+			`(send (make-instance 'fl1) :sum 4)`, `(let ((i (make-instance 'fl1))) (send i :sum 4) (send i :b))`}},
+	{"defclass", []string{`(defclass cl1 () ((s1 :initarg :s1 :initform 5) (s2 :initform "z")))`},
+		[]string{`(slot-value (make-instance 'cl1) 's1)`, `(slot-value (make-instance 'cl1 :s1 9) 's1)`, `(slot-value (make-instance 'cl1) 's2)`}},
+	{"defgeneric", []string{`(defgeneric g1 (a b))`,
+		`(defmethod g1 ((a fixnum) (b string)) (list 'fixnum-string a b))`,
+		`(defmethod g1 ((a string) (b t)) (list 'string-any a b))`},
+		[]string{`(g1 1 "a")`, `(g1 "s" 2)`, `(g1 1 2)`}},
+	{"defpackage", []string{`(defpackage :pk1 (:use :cl) (:export :pv))`, `(defvar pk1::pv 11)`, `(defun pk1::pf (x) (1+ x))`},
+		[]string{`pk1::pv`, `(pk1::pf 1)`, `(package-name (find-package 'pk1))`}},
+	{"flavor-tree", []string{
+		`(defflavor flz ((p 0)) () :gettable-instance-variables :inittable-instance-variables)`,
+		`(defflavor fla ((q "q")) (flz) :gettable-instance-variables :inittable-instance-variables)`,
+		`(defvar *vi* (make-instance 'fla :p 5))`},
+		[]string{`(send *vi* :p)`, `(send *vi* :q)`, `(send (make-instance 'fla) :p)`}},
+	{"data-vars", []string{
+		`(defvar *vh* (let ((h (make-hash-table))) (setf (gethash :k h) 1) (setf (gethash "s" h) "v") h))`,
+		`(defvar *vv* (vector 1 "a" 2.5))`, `(defvar *vstr* "a \"quoted\" string")`},
+		[]string{`*vh*`, `*vv*`, `*vstr*`}},
+	{"defun-layouts", []string{`(defun f3 (a &key (k 2)) (let ((z (cond ((< a 0) "neg") (t "pos")))) (dotimes (i 2) (setq k (+ k i))) (list z k)))`},
+		[]string{`(f3 1)`, `(f3 -1 :k 5)`}},
+}
+
+// forwardRef is a session of its own (not part of the subsets: the snapshot
+// of a session holding it faults, which would mask everything else).
+var forwardRef = &item{"forward-ref", []string{`(defun fw (x) (+ (fz x) 1))`}, []string{`(fw 1)`}}
+
+// flavorForest is a session of its own: a chain of three flavors among three
+// unrelated ones (the snapshot writer orders flavors by a partial order).
+var flavorForest = &item{"flavor-forest", []string{
+	`(defflavor fm1 ((a 1)) () :gettable-instance-variables)`,
+	`(defflavor fu1 ((u 1)) () :gettable-instance-variables)`,
+	`(defflavor fm2 ((b 2)) (fm1) :gettable-instance-variables)`,
+	`(defflavor fu2 ((u 2)) () :gettable-instance-variables)`,
+	`(defflavor fm3 ((c 3)) (fm2) :gettable-instance-variables)`,
+	`(defflavor fu3 ((u 3)) () :gettable-instance-variables)`},
+	[]string{`(send (make-instance 'fm3) :a)`, `(send (make-instance 'fm3) :c)`, `(send (make-instance 'fu2) :u)`}}
+
+func init() {
+	for _, it := range items {
+		menu = append(menu, it.id)
+	}
+}
 
 var menu []string
 
-func snapMaxSize(tier string) int { return 2 }
-func enumerateSnap(tier string, emit func(string)) {}
-func execSnap(spec string, res *engine.Result)  {}
-func execStage(spec string, res *engine.Result) {}
-func selftest(tier string) (int, int, []string) { return 0, 0, nil }
+func itemByID(id string) *item {
+	for _, it := range items {
+		if it.id == id {
+			return it
+		}
+	}
+	if id == forwardRef.id {
+		return forwardRef
+	}
+	if id == flavorForest.id {
+		return flavorForest
+	}
+	return nil
+}
+
+func snapMaxSize(tier string) int {
+	if tier == engine.Thorough {
+		return 4
+	}
+	return 2
+}
+
+func enumerateSnap(tier string, emit func(string)) {
+	max := snapMaxSize(tier)
+	n := len(items)
+	for size := 0; size <= max; size++ {
+		idx := make([]int, size)
+		var rec func(pos, start int)
+		rec = func(pos, start int) {
+			if pos == size {
+				ids := make([]string, size)
+				for i, k := range idx {
+					ids[i] = items[k].id
+				}
+				emit("snap|" + strings.Join(ids, ","))
+				return
+			}
+			for k := start; k < n; k++ {
+				idx[pos] = k
+				rec(pos+1, k+1)
+			}
+		}
+		rec(0, 0)
+	}
+	emit("snap|" + strings.Join(menu, ","))
+	emit("snap|" + forwardRef.id)
+	emit("snap|" + flavorForest.id)
+}
+
+// ------------------------------------------------------------------ stages
+
+type formOut struct {
+	Key      string `json:"key"`
+	Err      string `json:"err,omitempty"`
+	ErrClass string `json:"class,omitempty"`
+}
+
+type stageOut struct {
+	Probes      []string  `json:"probes"`
+	Setup       []string  `json:"setup,omitempty"`
+	LoadErr     string    `json:"load_err,omitempty"`
+	LoadCls     string    `json:"load_cls,omitempty"`
+	Forms       []formOut `json:"forms,omitempty"`
+	SnapErr     string    `json:"snap_err,omitempty"`
+	SnapCls     string    `json:"snap_cls,omitempty"`
+	FlavorOrder string    `json:"flavor_order,omitempty"`
+	Variants    int       `json:"variants,omitempty"`
+	VarKinds    []string  `json:"var_kinds,omitempty"`
+}
+
+func sessionItems(s string) (its []*item, ok bool) {
+	if s == "" {
+		return nil, true
+	}
+	for _, id := range strings.Split(s, ",") {
+		it := itemByID(id)
+		if it == nil {
+			return nil, false
+		}
+		its = append(its, it)
+	}
+	return its, true
+}
+
+func errClass(err *lisp.Err) string {
+	if err.GoFault {
+		return "go-fault"
+	}
+	return err.Class
+}
+
+// execStage runs in a child process of its own.
+func execStage(spec string, res *engine.Result) {
+	parts := strings.SplitN(spec, "|", 3)
+	if len(parts) != 3 {
+		res.Fail("harness:bad-spec", spec)
+		return
+	}
+	its, ok := sessionItems(parts[1])
+	if !ok {
+		res.Fail("harness:bad-spec", spec)
+		return
+	}
+	dir := parts[2]
+	// the harness' own Go-defined functions must not be part of the world
+	slip.UserPkg.Undefine("tr")
+	for _, h := range helperNames {
+		slip.UserPkg.Undefine(h)
+	}
+	var out stageOut
+	scope := slip.NewScope()
+	s1 := filepath.Join(dir, "s1.lisp")
+	s2 := filepath.Join(dir, "s2.lisp")
+	snapshot := func(path string) {
+		if _, err := lisp.EvalIn(scope, fmt.Sprintf("(snapshot %q)", path)); err != nil {
+			out.SnapErr = err.String()
+			out.SnapCls = errClass(err)
+		}
+	}
+	switch parts[0] {
+	case "stage1":
+		for _, it := range its {
+			for _, src := range it.src {
+				if _, err := lisp.EvalIn(scope, src); err != nil {
+					out.Setup = append(out.Setup, src+" => "+err.String())
+				}
+			}
+		}
+		snapshot(s1)
+		// S4: is the text a function of the session, or of Go map order?
+		first, _ := os.ReadFile(s1)
+		base := stripHeader(string(first))
+		seen := map[string]bool{base: true}
+		for i := 0; i < 23; i++ {
+			v, err := lisp.EvalIn(scope, "(snapshot nil)")
+			if err != nil {
+				break
+			}
+			if str, ok := v.(slip.String); ok {
+				t := stripHeader(string(str))
+				if !seen[t] {
+					seen[t] = true
+					for _, d := range variantKinds(splitForms(base), splitForms(t)) {
+						dup := false
+						for _, x := range out.VarKinds {
+							dup = dup || x == d
+						}
+						if !dup {
+							out.VarKinds = append(out.VarKinds, d)
+						}
+					}
+				}
+			}
+		}
+		out.Variants = len(seen)
+		for t := range seen {
+			if d := flavorOrderProblem(t); d != "" {
+				out.FlavorOrder = d
+				break
+			}
+		}
+	case "stage2", "stage2f":
+		file := s1
+		if parts[0] == "stage2f" {
+			file = filepath.Join(dir, "s1f.lisp")
+		}
+		if _, err := lisp.EvalIn(scope, fmt.Sprintf("(load %q)", file)); err != nil {
+			out.LoadErr = err.String()
+			out.LoadCls = errClass(err)
+			b, _ := json.Marshal(&out)
+			res.Outcome = string(b)
+			return
+		}
+		snapshot(s2)
+	case "stage3":
+		text, err := os.ReadFile(s1)
+		if err != nil {
+			res.Fail("harness:snap-file", err.Error())
+			return
+		}
+		for _, f := range splitForms(stripHeader(string(text))) {
+			fo := formOut{Key: formKey(f)}
+			if _, e := lisp.EvalIn(scope, f); e != nil {
+				fo.Err = e.String()
+				fo.ErrClass = errClass(e)
+			}
+			out.Forms = append(out.Forms, fo)
+		}
+		snapshot(s2)
+	}
+	for _, it := range its {
+		for _, p := range it.probes {
+			out.Probes = append(out.Probes, evalObserve(slip.NewScope(), p))
+		}
+	}
+	b, _ := json.Marshal(&out)
+	res.Outcome = string(b)
+}
+
+func stripHeader(s string) string {
+	if strings.HasPrefix(s, ";;;; Snapshot taken at") {
+		if i := strings.IndexByte(s, '\n'); 0 <= i {
+			return s[i+1:]
+		}
+		return ""
+	}
+	return s
+}
+
+// splitForms cuts Lisp text into its top level forms (strings, comments,
+// character literals and |..| respected).
+func splitForms(s string) (forms []string) {
+	for _, sp := range formSpans(s) {
+		forms = append(forms, s[sp[0]:sp[1]])
+	}
+	return
+}
+
+func formSpans(s string) (spans [][2]int) {
+	var forms []string
+	defer func() {
+		// positions: forms are found in order, each is a substring
+		from := 0
+		for _, f := range forms {
+			i := strings.Index(s[from:], f)
+			if i < 0 {
+				continue
+			}
+			spans = append(spans, [2]int{from + i, from + i + len(f)})
+			from += i + len(f)
+		}
+	}()
+	depth := 0
+	start := -1
+	i := 0
+	for i < len(s) {
+		c := s[i]
+		switch {
+		case c == ';':
+			for i < len(s) && s[i] != '\n' {
+				i++
+			}
+			continue
+		case c == '"':
+			if depth == 0 && start < 0 {
+				start = i
+			}
+			i++
+			for i < len(s) && s[i] != '"' {
+				if s[i] == '\\' {
+					i++
+				}
+				i++
+			}
+			if depth == 0 && 0 <= start {
+				forms = append(forms, s[start:min(i+1, len(s))])
+				start = -1
+			}
+		case c == '|':
+			if depth == 0 && start < 0 {
+				start = i
+			}
+			i++
+			for i < len(s) && s[i] != '|' {
+				i++
+			}
+		case c == '#' && i+1 < len(s) && s[i+1] == '\\':
+			if depth == 0 && start < 0 {
+				start = i
+			}
+			i += 2 // the character after #\ is literal
+		case c == '(':
+			if depth == 0 && start < 0 {
+				start = i
+			}
+			depth++
+		case c == ')':
+			depth--
+			if depth <= 0 {
+				depth = 0
+				if 0 <= start {
+					forms = append(forms, s[start:i+1])
+					start = -1
+				}
+			}
+		case c == ' ' || c == '\n' || c == '\t' || c == '\r':
+			if depth == 0 && 0 <= start {
+				forms = append(forms, s[start:i])
+				start = -1
+			}
+		default:
+			if depth == 0 && start < 0 {
+				start = i
+			}
+		}
+		i++
+	}
+	if 0 <= start && start < len(s) {
+		if f := strings.TrimSpace(s[start:]); f != "" {
+			forms = append(forms, f)
+		}
+	}
+	return
+}
+
+// repairFlavorOrder rewrites the defflavor forms of a snapshot into their
+// slots so that every component flavor precedes its users (S9: stepping
+// around the flavor-order finding so that the rest of the session is compared).
+func repairFlavorOrder(text string) string {
+	spans := formSpans(text)
+	var slots [][2]int
+	var fl []string
+	for _, sp := range spans {
+		if strings.HasPrefix(text[sp[0]:sp[1]], "(defflavor ") {
+			slots = append(slots, sp)
+			fl = append(fl, text[sp[0]:sp[1]])
+		}
+	}
+	// repeatedly move a form behind the last of its bases
+	for guard := 0; guard < 100; guard++ {
+		moved := false
+		joined := strings.Join(fl, "\n")
+		if flavorOrderProblem(joined) == "" {
+			break
+		}
+		for i := 0; i < len(fl) && !moved; i++ {
+			for j := i + 1; j < len(fl); j++ {
+				pair := fl[i] + "\n" + fl[j]
+				if flavorOrderProblem(pair) != "" {
+					f := fl[i]
+					copy(fl[i:j], fl[i+1:j+1])
+					fl[j] = f
+					moved = true
+					break
+				}
+			}
+		}
+		if !moved {
+			break
+		}
+	}
+	var b strings.Builder
+	at := 0
+	for i, sp := range slots {
+		b.WriteString(text[at:sp[0]])
+		b.WriteString(fl[i])
+		at = sp[1]
+	}
+	b.WriteString(text[at:])
+	return b.String()
+}
+
+var userNames = map[string]bool{}
+
+func init() {
+	for _, n := range []string{"*va*", "*pb*", "+kc+", "*vs*", "*vk*", "f1", "f2", "f9", "fw", "m1", "fl1", "cl1", "g1", "pk1", "pv", "pf",
+		"flz", "fla", "fm1", "fm2", "fm3", "fu1", "fu2", "fu3", "*vi*", "*vh*", "*vv*", "*vstr*", "f3"} {
+		userNames[n] = true
+	}
+}
+
+// formKey names a top level form of a snapshot for signatures: head and what
+// it defines. Names come from the fixed menu or from slip itself, never from
+// a counter.
+func formKey(f string) string {
+	f = strings.TrimSpace(f)
+	if !strings.HasPrefix(f, "(") {
+		return "atom"
+	}
+	fields := strings.Fields(strings.NewReplacer("(", " ( ", ")", " ) ", "\n", " ").Replace(f))
+	if len(fields) < 2 {
+		return "()"
+	}
+	head := strings.ToLower(fields[1])
+	target := ""
+	if 2 < len(fields) {
+		target = strings.TrimPrefix(strings.ToLower(strings.Trim(fields[2], `"`)), ":")
+	}
+	if target == "(" && 3 < len(fields) { // (defmethod (flavor :name) ...
+		var tt []string
+		for _, x := range fields[3:] {
+			if x == ")" {
+				break
+			}
+			tt = append(tt, strings.ToLower(x))
+		}
+		target = "(" + strings.Join(tt, " ") + ")"
+	}
+	switch head {
+	case "defun", "defmacro":
+		if strings.HasSuffix(strings.TrimSpace(strings.TrimSuffix(f, ")")), "...") {
+			return "(" + head + " <built-in> ...)"
+		}
+		name := target
+		if i := strings.LastIndex(name, "::"); 0 <= i {
+			name = name[i+2:]
+		}
+		if !userNames[name] {
+			target = "<other>"
+		}
+	case "setq", "defvar", "defconstant", "defparameter":
+		name := target
+		if i := strings.LastIndex(name, "::"); 0 <= i {
+			name = name[i+2:]
+		}
+		if !userNames[name] && !strings.HasPrefix(target, "common-lisp::") && !strings.HasPrefix(target, "bag::") &&
+			!strings.HasPrefix(target, "net::") && !strings.HasPrefix(target, "swank::") && !strings.HasPrefix(target, "gi::") {
+			target = "<other>"
+		}
+	}
+	return "(" + head + " " + target + ")"
+}
+
+func firstDiff(a, b []string) string {
+	for i := 0; i < len(a) && i < len(b); i++ {
+		if a[i] != b[i] {
+			return formKey(a[i]) + " vs " + formKey(b[i])
+		}
+	}
+	return fmt.Sprintf("%d vs %d forms", len(a), len(b))
+}
+
+// ------------------------------------------------------------------ parent
+
+var childSeq int
+
+// builtinJunk: snapshot forms of slip's own (unlocked) swank package that can
+// not be loaded; they are the listed finding the degraded modes step around.
+var builtinJunk = map[string]bool{
+	"(defpackage swank)":           true,
+	"(defconstant swank::*swank*)": true,
+}
+
+// snapMutator (self-test only) rewrites the first snapshot before it is loaded.
+var snapMutator func(text string) string
+
+func runChild(spec string) (out stageOut, fail string) {
+	self, err := os.Executable()
+	if err != nil {
+		return out, "os.Executable: " + err.Error()
+	}
+	cmd := exec.Command(self, "exec", "C19", "--spec", spec)
+	cmd.Dir = "/verif"
+	stdout, err := cmd.Output()
+	if err != nil {
+		msg := err.Error()
+		if ee, ok := err.(*exec.ExitError); ok {
+			st := string(ee.Stderr)
+			if 600 < len(st) {
+				st = st[:600]
+			}
+			msg += ": " + st
+		}
+		return out, msg
+	}
+	var r engine.Result
+	if err = json.Unmarshal(stdout, &r); err != nil {
+		return out, "child output: " + err.Error()
+	}
+	if 0 < len(r.Failures) {
+		return out, r.Failures[0].Sig + ": " + r.Failures[0].Detail
+	}
+	if err = json.Unmarshal([]byte(r.Outcome), &out); err != nil {
+		return out, "child outcome: " + err.Error()
+	}
+	return out, ""
+}
+
+func probeKind(v string) string {
+	switch {
+	case strings.HasPrefix(v, "ERR "):
+		return "error:" + v[4:]
+	case strings.HasPrefix(v, "GOFAULT"):
+		return "go-fault"
+	}
+	return "value"
+}
+
+func execSnap(spec string, res *engine.Result) {
+	session := spec[5:]
+	its, ok := sessionItems(session)
+	if !ok {
+		res.Fail("harness:bad-spec", spec)
+		return
+	}
+	res.Hit("snap-session")
+	res.Nontrivial = 0 < len(its)
+	childSeq++
+	dir := filepath.Join("/verif/.build/scratch/C19", fmt.Sprintf("s%d-%d-%x", os.Getpid(), childSeq, engine.Hash64(spec)))
+	if err := os.MkdirAll(dir, 0o755); err != nil {
+		res.Fail("harness:scratch", err.Error())
+		return
+	}
+	defer os.RemoveAll(dir)
+
+	o1, fail := runChild("stage1|" + session + "|" + dir)
+	if fail != "" {
+		res.Fail("snap stage=first-process child-failed", fail)
+		return
+	}
+	if 0 < len(o1.Setup) {
+		res.Fail("harness:snap-setup-failed", strings.Join(o1.Setup, "; "))
+		return
+	}
+	if o1.SnapErr != "" {
+		res.Fail("snap stage=first-process snapshot-fails err="+o1.SnapCls, fmt.Sprintf("session [%s]: (snapshot file) => %s", session, o1.SnapErr))
+		return
+	}
+	res.Hit("snap-stage1-ok")
+	t1b, err := os.ReadFile(filepath.Join(dir, "s1.lisp"))
+	if err != nil {
+		res.Fail("snap stage=first-process no-snapshot-file", err.Error())
+		return
+	}
+	if snapMutator != nil {
+		t1b = []byte(snapMutator(string(t1b)))
+		_ = os.WriteFile(filepath.Join(dir, "s1.lisp"), t1b, 0o644)
+	}
+	if d := flavorOrderProblem(string(t1b)); d != "" {
+		// the finding is reported below (from stage 1); repair the text so that
+		// its consequences do not hide or blur everything else
+		if o1.FlavorOrder == "" {
+			o1.FlavorOrder = d
+		}
+		t1b = []byte(repairFlavorOrder(string(t1b)))
+		_ = os.WriteFile(filepath.Join(dir, "s1.lisp"), t1b, 0o644)
+		res.Hit("snap-degraded-flavor-order-repaired")
+	}
+	t1 := stripHeader(string(t1b))
+	forms1 := splitForms(t1)
+	for _, k := range o1.VarKinds {
+		res.Fail("snap nondeterministic-text "+k,
+			fmt.Sprintf("session [%s]: %d different texts from 24 snapshots of the same unchanged session (apart from the header line): %s", session, o1.Variants, k))
+	}
+	if o1.FlavorOrder != "" {
+		res.Fail("snap flavor-order derived-before-base", fmt.Sprintf("session [%s]: in one of 24 snapshots of the unchanged session %s", session, o1.FlavorOrder))
+	}
+	mode := "load"
+	o2, fail := runChild("stage2|" + session + "|" + dir)
+	if fail != "" {
+		res.Fail("snap stage=load child-failed", fail)
+		return
+	}
+	if o2.LoadErr != "" {
+		res.Fail(fmt.Sprintf("snap load-aborts err=%s msg=%s", o2.LoadCls, sigMsg(o2.LoadErr)),
+			fmt.Sprintf("session [%s]: (load snapshot) in a fresh process => %s; the session is compared after stepping around that (see mode)", session, o2.LoadErr))
+		// S9, first step around: the forms slip writes for its own unlocked
+		// built-in package (the listed finding) are left out and the real
+		// (load file) is tried again
+		var kept []string
+		for _, f := range forms1 {
+			if !builtinJunk[formKey(f)] {
+				kept = append(kept, f)
+			}
+		}
+		_ = os.WriteFile(filepath.Join(dir, "s1f.lisp"), []byte(strings.Join(kept, "\n")+"\n"), 0o644)
+		o2f, failf := runChild("stage2f|" + session + "|" + dir)
+		if failf != "" {
+			res.Fail("snap stage=filtered-load child-failed", failf)
+			return
+		}
+		if o2f.LoadErr == "" {
+			mode = "filtered-load"
+			res.Hit("snap-loaded-filtered")
+			res.Hit("snap-forms-loaded")
+			o2 = o2f
+		} else {
+			res.Fail(fmt.Sprintf("snap filtered-load-aborts err=%s msg=%s", o2f.LoadCls, sigMsg(o2f.LoadErr)),
+				fmt.Sprintf("session [%s]: (load snapshot) without the forms of slip's own swank package => %s", session, o2f.LoadErr))
+		}
+	}
+	if o2.LoadErr != "" {
+		// second step around: form by form in text order, failing forms skipped
+		mode = "degraded"
+		o3, fail3 := runChild("stage3|" + session + "|" + dir)
+		if fail3 != "" {
+			res.Fail("snap stage=degraded-load child-failed", fail3)
+			return
+		}
+
+		seen := map[string]bool{}
+		for _, f := range o3.Forms {
+			res.Hit("snap-forms-loaded")
+			if f.Err == "" {
+				continue
+			}
+			sig := fmt.Sprintf("snap form-fails form=%s err=%s", f.Key, f.ErrClass)
+			if !seen[sig] {
+				seen[sig] = true
+				res.Fail(sig, fmt.Sprintf("session [%s] (degraded mode): evaluating the snapshot form %s in a fresh process => %s", session, f.Key, f.Err))
+			}
+		}
+		o2 = o3
+	} else {
+		res.Hit("snap-loaded-whole")
+		res.Hit("snap-forms-loaded")
+	}
+	if o2.SnapErr != "" {
+		res.Fail("snap stage=second-process snapshot-fails err="+o2.SnapCls, fmt.Sprintf("session [%s] (%s mode): (snapshot file) after the load => %s", session, mode, o2.SnapErr))
+	}
+	// probes
+	k := 0
+	for _, it := range its {
+		for pi, p := range it.probes {
+			if len(o1.Probes) <= k || len(o2.Probes) <= k {
+				res.Fail("harness:snap-probe-count", fmt.Sprintf("%d %d", len(o1.Probes), len(o2.Probes)))
+				return
+			}
+			a, b := o1.Probes[k], o2.Probes[k]
+			k++
+			res.Hit("snap-probes-compared")
+			if normDocs(a) != normDocs(b) {
+				res.Fail(fmt.Sprintf("snap probe-differs item=%s probe=%d original=%s reloaded=%s", it.id, pi+1, probeKind(a), probeKind(b)),
+					fmt.Sprintf("session [%s] (%s mode): %s => %s in the session, %s after loading its snapshot into a fresh process", session, mode, p, a, b))
+			}
+		}
+	}
+	// fixed point
+	t2b, err := os.ReadFile(filepath.Join(dir, "s2.lisp"))
+	if err != nil {
+		res.Fail("snap stage=second-process no-snapshot-file", err.Error())
+		return
+	}
+	res.Hit("snap-second-snapshot")
+	t2 := stripHeader(string(t2b))
+	forms2 := splitForms(t2)
+	fixed := t1 == t2
+	if !fixed {
+		count := func(fs []string) map[string]int {
+			m := map[string]int{}
+			for _, f := range fs {
+				m[f]++
+			}
+			return m
+		}
+		// Go map order inside a form (reported as nondeterministic-text when it
+		// shows) is canonicalised away before the two texts are compared
+		for i := range forms1 {
+			forms1[i] = canonForm(forms1[i])
+		}
+		for i := range forms2 {
+			forms2[i] = canonForm(forms2[i])
+		}
+		m1, m2 := count(forms1), count(forms2)
+		reported := map[string]bool{}
+		diff := false
+		report := func(kind, f string) {
+			diff = true
+			sig := fmt.Sprintf("snap fixed-point %s form=%s", kind, formKey(f))
+			if !reported[sig] {
+				reported[sig] = true
+				other := ""
+				if kind == "text-lost" {
+					// show the form with the same key in the other snapshot, if any
+					for _, g := range forms2 {
+						if formKey(g) == formKey(f) && m1[g] == 0 {
+							other = "; second snapshot has " + clip(g, 300)
+							break
+						}
+					}
+				}
+				res.Fail(sig, fmt.Sprintf("session [%s] (%s mode): first snapshot form %s%s", session, mode, clip(f, 300), other))
+			}
+		}
+		for _, f := range forms1 {
+			if m2[f] < m1[f] {
+				report("text-lost", f)
+			}
+		}
+		for _, f := range forms2 {
+			if m1[f] < m2[f] {
+				// a changed form is reported once, as lost
+				changed := false
+				for _, g := range forms1 {
+					if formKey(g) == formKey(f) && m2[g] < m1[g] {
+						changed = true
+						break
+					}
+				}
+				if !changed {
+					report("text-gained", f)
+				} else {
+					diff = true
+				}
+			}
+		}
+		if !diff {
+			at := ""
+			for i := 0; i < len(forms1) && i < len(forms2); i++ {
+				if forms1[i] != forms2[i] {
+					at = formKey(forms1[i])
+					if k := strings.IndexByte(at, ' '); 0 < k {
+						at = at[1:k]
+					}
+					break
+				}
+			}
+			switch {
+			case at == "":
+				// equal apart from Go map order inside forms
+				res.Hit("snap-fixed-point-holds")
+				fixed = true
+			default:
+				// the same finding as a text that changes from one snapshot to the
+				// next inside one process: the order is not a function of the session
+				sig := "snap nondeterministic-text kind=order-of-forms head=" + at
+				dup := false
+				for _, f := range res.Failures {
+					dup = dup || f.Sig == sig
+				}
+				if !dup {
+					res.Fail(sig, fmt.Sprintf("session [%s] (%s mode): the second snapshot has the same forms as the first in another order; first difference %s", session, mode, firstDiff(forms1, forms2)))
+				}
+			}
+		}
+	} else {
+		res.Hit("snap-fixed-point-holds")
+	}
+	// the session's definitions must be present in the first snapshot
+	for _, it := range its {
+		for _, src := range it.src {
+			key := formKey(src)
+			want := definedName(src)
+			if want == "" {
+				continue
+			}
+			found := false
+			for _, f := range forms1 {
+				if mentionsDefinition(f, key, want) {
+					found = true
+					break
+				}
+			}
+			res.Hit("snap-definitions-looked-for")
+			if !found {
+				res.Fail(fmt.Sprintf("snap definition-absent item=%s form=%s", it.id, key),
+					fmt.Sprintf("session [%s]: the snapshot text has no form that defines %s (session form %s)", session, want, src))
+			}
+		}
+	}
+	outc := []string{fmt.Sprintf("forms=%d fixed=%v mode=%s variants=%d", len(forms1), fixed, mode, o1.Variants)}
+	outc = append(outc, o2.Probes...)
+	sort.Strings(outc[1:])
+	res.Outcome = strings.Join(outc, " | ")
+}
+
+func clip(s string, n int) string {
+	s = strings.Join(strings.Fields(s), " ")
+	if n < len(s) {
+		return s[:n] + "…"
+	}
+	return s
+}
+
+// definedName returns the name a session form defines ("" for none).
+func definedName(src string) string {
+	key := formKey(src)
+	key = strings.TrimSuffix(strings.TrimPrefix(key, "("), ")")
+	parts := strings.SplitN(key, " ", 2)
+	if len(parts) != 2 {
+		return ""
+	}
+	return parts[1]
+}
+
+// mentionsDefinition: does snapshot form f define the thing the session form
+// (key, name) defined? Defining heads may differ (defparameter is saved as
+// defvar+setq, methods inside a defgeneric): any defining form that names it.
+func mentionsDefinition(f, key, name string) bool {
+	fk := formKey(f)
+	lf := strings.ToLower(f)
+	n := name
+	if i := strings.LastIndex(n, "::"); 0 <= i {
+		n = n[i+2:]
+	}
+	switch {
+	case strings.HasPrefix(key, "(defmethod ("):
+		// flavor method: (defmethod (fl1 :sum) ...) or (defmethod (fl1 :before :sum)
+		return strings.HasPrefix(fk, "(defmethod (") && fk == key
+	case strings.HasPrefix(key, "(defmethod "):
+		// generic method: inside the defgeneric or as defmethod
+		return (strings.HasPrefix(fk, "(defgeneric "+n) || strings.HasPrefix(fk, "(defmethod "+n)) && strings.Contains(lf, ":method") ||
+			strings.HasPrefix(fk, "(defmethod "+n)
+	}
+	for _, h := range []string{"defvar", "defparameter", "defconstant", "setq", "defun", "defmacro", "defflavor", "defclass", "defgeneric", "defpackage"} {
+		for _, q := range []string{n, "common-lisp-user::" + n, "pk1::" + n} {
+			if fk == "("+h+" "+q+")" {
+				return true
+			}
+		}
+	}
+	return false
+}
+
+// sigMsg turns an error message into a signature token: the class prefix is
+// dropped, white space collapsed, digits folded, clipped. The names in it
+// come from the fixed session menu or from slip.
+func sigMsg(msg string) string {
+	if i := strings.Index(msg, ": "); 0 <= i {
+		msg = msg[i+2:]
+	}
+	var b strings.Builder
+	for _, r := range strings.Join(strings.Fields(msg), "_") {
+		if '0' <= r && r <= '9' {
+			r = 'N'
+		}
+		b.WriteRune(r)
+	}
+	out := b.String()
+	if 70 < len(out) {
+		out = out[:70]
+	}
+	return out
+}
+
+// flavorOrderProblem: a defflavor form that names a component flavor defined
+// only later in the same text (the text is loaded top to bottom).
+func flavorOrderProblem(text string) string {
+	forms := splitForms(text)
+	pos := map[string]int{}
+	type fl struct {
+		name  string
+		bases []string
+		at    int
+	}
+	var fls []fl
+	for i, f := range forms {
+		if !strings.HasPrefix(f, "(defflavor ") {
+			continue
+		}
+		var code slip.Code
+		func() {
+			defer func() { _ = recover() }()
+			code = slip.ReadString(f, slip.NewScope())
+		}()
+		if len(code) != 1 {
+			continue
+		}
+		list, _ := code[0].(slip.List)
+		if len(list) < 4 {
+			continue
+		}
+		name, _ := list[1].(slip.Symbol)
+		x := fl{name: strings.ToLower(string(name)), at: i}
+		if bases, ok := list[3].(slip.List); ok {
+			for _, b := range bases {
+				if bs, ok := b.(slip.Symbol); ok {
+					x.bases = append(x.bases, strings.ToLower(string(bs)))
+				}
+			}
+		}
+		pos[x.name] = i
+		fls = append(fls, x)
+	}
+	for _, x := range fls {
+		for _, b := range x.bases {
+			if p, has := pos[b]; has && x.at < p {
+				return fmt.Sprintf("(defflavor %s ... (%s)) is written before (defflavor %s ...)", x.name, b, b)
+			}
+		}
+	}
+	return ""
+}
+
+// canonForm removes Go map order from a snapshot form: the variables of an
+// (:inittable-instance-variables ...) option and the (setf (gethash ...))
+// entries of a hash table constructor are sorted.
+func canonForm(f string) string {
+	f = sortOption(f, "(:inittable-instance-variables")
+	if i := strings.Index(f, "(make-hash-table)"); 0 <= i {
+		// collect the (setf ...) forms that follow
+		var entries []string
+		rest := f
+		var b strings.Builder
+		for {
+			j := strings.Index(rest, "(setf")
+			if j < 0 {
+				break
+			}
+			end := matching(rest, j)
+			b.WriteString(rest[:j])
+			b.WriteString("\x00")
+			entries = append(entries, strings.Join(strings.Fields(rest[j:end]), " "))
+			rest = rest[end:]
+		}
+		b.WriteString(rest)
+		sort.Strings(entries)
+		out := b.String()
+		for _, e := range entries {
+			out = strings.Replace(out, "\x00", e, 1)
+		}
+		return out
+	}
+	return f
+}
+
+// variantKinds classifies how two snapshots of the same unchanged session differ.
+func variantKinds(a, b []string) (kinds []string) {
+	ca := make([]string, len(a))
+	cb := make([]string, len(b))
+	for i := range a {
+		ca[i] = canonForm(a[i])
+	}
+	for i := range b {
+		cb[i] = canonForm(b[i])
+	}
+	ma := map[string]string{}
+	for i := range a {
+		ma[ca[i]] = a[i]
+	}
+	within := false
+	for i := range b {
+		if raw, has := ma[cb[i]]; has && raw != b[i] {
+			kinds = append(kinds, "kind=within-form form="+formKey(b[i]))
+			within = true
+		}
+	}
+	sa := append([]string(nil), ca...)
+	sb := append([]string(nil), cb...)
+	sort.Strings(sa)
+	sort.Strings(sb)
+	same := len(sa) == len(sb)
+	for i := 0; same && i < len(sa); i++ {
+		same = sa[i] == sb[i]
+	}
+	switch {
+	case !same:
+		kinds = append(kinds, "kind=other first-difference="+firstDiff(ca, cb))
+	default:
+		for i := range ca {
+			if ca[i] != cb[i] {
+				head := formKey(ca[i])
+				if k := strings.IndexByte(head, ' '); 0 < k {
+					head = head[1:k]
+				}
+				kinds = append(kinds, "kind=order-of-forms head="+head)
+				break
+			}
+		}
+	}
+	_ = within
+	return
+}
